@@ -37,7 +37,7 @@ template<int D> void run_c06_based(vp::Input const& in, vp::Ctx& ctx) {
 	multi::array<int, D> A[2]; BasedArr<D> M[2];
 	bool nt = false;
 	for(int r = 0; r < in.nops(); ++r) {
-		unsigned op = in.op(r, 0) % 6U; int a = in.op(r, 1) & 1, b = 1 - a;
+		unsigned op = in.op(r, 0) % 9U; int a = in.op(r, 1) & 1, b = 1 - a;
 		unsigned x = in.op(r, 2) | (static_cast<unsigned>(in.op(r, 3)) << 8U);
 		BasedArr<D> nm;
 		for(int k = 0; k < D; ++k) { nm.first[static_cast<std::size_t>(k)] = static_cast<long>((x >> (5*k)) & 7U) % 7 - 3; nm.size[static_cast<std::size_t>(k)] = static_cast<long>((x >> (5*k + 3)) & 3U) + ((op == 0) ? 0 : 1); }
@@ -64,6 +64,9 @@ template<int D> void run_c06_based(vp::Input const& in, vp::Ctx& ctx) {
 			}
 			case 3: ctx.desc << " | copy-assign " << a << " <- " << b; A[a] = A[b]; M[a] = M[b]; break;
 			case 4: { ctx.desc << " | copy-construct " << a << " <- " << b; multi::array<int, D> T(A[b]); A[a] = std::move(T); M[a] = M[b]; break; }
+			case 6: { ctx.desc << " | assign-convertible " << a << " <- array<long>(" << b << ")"; multi::array<long, D> L(A[b]); A[a] = L; M[a] = M[b]; break; }  // converting copies carry the extensions over
+			case 7: { ctx.desc << " | construct-convertible " << a << " <- array<long>(" << b << ")"; multi::array<long, D> L(A[b]); multi::array<int, D> T(L); A[a] = std::move(T); M[a] = M[b]; break; }
+			case 8: { ctx.desc << " | assign-view " << a << " <- " << b << "()"; A[a] = A[b](); M[a] = M[b]; break; }
 			default: {  // element write through the index
 				if(M[a].n() == 0) { break; }
 				std::array<long, D> t; long idx[D];
@@ -79,6 +82,24 @@ template<int D> void run_c06_based(vp::Input const& in, vp::Ctx& ctx) {
 		if(M[0].n() > 0 && M[1].n() > 0) {
 			bool const want = M[0].first == M[1].first && M[0].size == M[1].size && M[0].v == M[1].v;
 			VP_CHECK((A[0] == A[1]) == want && (A[0] != A[1]) == !want, "based/equality", "A==B is " << (A[0] == A[1]) << " model " << want);
+			// the same for operands of different static types (views, a view over pointer-to-const, another element type): these go through other overloads
+			auto&& va = A[0](); auto&& vb = A[1]();
+			VP_CHECK((va == vb) == want && (va != vb) == !want, "based/equality_views", "A()==B() is " << (va == vb) << " model " << want);
+			multi::array_ref<int, D, int const*> CR(A[1].extensions(), A[1].data_elements());
+			VP_CHECK((va == CR()) == want && (va != CR()) == !want && (CR() == va) == want, "based/equality_const_pointer_view", "A()==cref(B)() is " << (va == CR()) << " model " << want);
+			multi::array<long, D> L(A[1]);
+			VP_CHECK((va == L()) == want && (va != L()) == !want && (L == A[0]) == want, "based/equality_other_element_type", "A()==array<long>(B)() is " << (va == L()) << " model " << want);
+			if constexpr(D >= 2) {  // rows: 1-D operands of different static types
+				if(M[0].size[0] > 0 && M[1].size[0] > 0) {
+					bool roweq = M[0].first[1] == M[1].first[1] && M[0].size[1] == M[1].size[1];
+					if(roweq) { std::array<long, D> ta{M[0].first[0], 0}, tb{M[1].first[0], 0}; for(long j = 0; j < M[0].size[1] && roweq; ++j) { ta[1] = M[0].first[1] + j; tb[1] = M[1].first[1] + j; roweq = M[0].v.at(ta) == M[1].v.at(tb); } }
+					auto&& ra = A[0][M[0].first[0]]; auto&& rb = CR[M[1].first[0]]; auto&& rl = L[M[1].first[0]];
+					VP_CHECK((ra == rb) == roweq && (ra != rb) == !roweq, "based/equality_rows_const_pointer", "first rows: a==b is " << (ra == rb) << " model " << roweq);
+					VP_CHECK((ra == rl) == roweq && (ra != rl) == !roweq, "based/equality_rows_other_element_type", "first rows: a==b<long> is " << (ra == rl) << " model " << roweq);
+				}
+			} else {
+				(void)0;
+			}
 		}
 	}
 	ctx.nontrivial = nt;
